@@ -1,3 +1,4 @@
+import Std.Data.HashMap
 import QV.Drive.Util
 import QV.Model.Front
 import QV.Model.Sem
@@ -64,6 +65,30 @@ def freeOf (inputs : List String) (defs : List (String × BExp)) : List String :
 
 def strsJ (l : List String) : Json := Json.arr (l.map Json.str).toArray
 
+/-- The table `QV.Front.retTable` gives (row k: argument bit i = bit i of k; the definitions run in
+order; one character per return bit; an unbound symbol reads `false`), computed with the environment
+kept as a hash map of Booleans already evaluated.  `QV.Front.runDefs` - the function the theorems speak
+of - represents the environment as one closure per definition; its compiled form was measured to
+take time growing far faster than the length of the list (0.7 s for 56 definitions, 57 s for the 145 of
+a three-times unrolled if / elif; apparently a lookup through the closure chain evaluates the
+definitions it passes again).  Same function, each definition evaluated once per row. -/
+def retTableFast (argBits retBits : List String) (defs : List (String × BExp)) : String := Id.run do
+  let mut out := ""
+  for k in [0:2 ^ argBits.length] do
+    let mut env : Std.HashMap String Bool := {}
+    let mut i := 0
+    for a in argBits do
+      -- `assignment` takes the first index of a name
+      if !env.contains a then env := env.insert a (k.testBit i)
+      i := i + 1
+    for (n, e) in defs do
+      let cur := env
+      let v := e.eval (fun x => (cur.get? x).getD false)
+      env := env.insert n v
+    for r in retBits do
+      out := out.push (if (env.get? r).getD false then '1' else '0')
+  return out
+
 def translateOp (j : Json) : R Json := do
   let q := getQuirks j
   let args ← (← (← j.getObjVal? "args").getArr?).toList.mapM fun e => do
@@ -77,12 +102,16 @@ def translateOp (j : Json) : R Json := do
   | .error e => pure (Json.mkObj [("error", Json.str e)])
   | .ok (defs, events) =>
     let withTable := (j.getObjValAs? Bool "table").toOption.getD true
+    let table := if withTable then retTableFast argBits retBits defs else ""
+    -- tie of the fast evaluator to the function the theorems speak of, on every short definition list
+    if withTable && defs.length ≤ 48 && table != retTable argBits retBits defs then
+      throw "retTableFast differs from QV.Front.retTable on this definition list"
     pure (Json.mkObj [
       ("argbits", strsJ argBits), ("retbits", strsJ retBits),
       ("defined", strsJ (defs.map (·.1))),
       ("free", strsJ (freeOf argBits defs)),
       ("events", strsJ events),
-      ("table", Json.str (if withTable then retTable argBits retBits defs else ""))])
+      ("table", Json.str table)])
 
 /-- operand of `c01.arith`: ["var", name, w] or ["const", w, v] (QintImp.const of the w-bit class) -/
 def parseOperand (j : Json) : R (Nat × List BExp × List String) := do
